@@ -106,16 +106,20 @@ class XmlContext:
         if len(sys.modules) == self.sys_modules:
             return
 
-        self.xsi_cache.clear()
+        sys_modules = len(sys.modules)
+        xsi_cache: dict[str, list[type]] = defaultdict(list)
         builder = self.get_builder()
         for clazz in self.get_subclasses(object):
             if self.is_binding_model(clazz):
                 meta = builder.build_class_meta(clazz)
 
                 if meta.target_qname:
-                    self.xsi_cache[meta.target_qname].append(clazz)
+                    xsi_cache[meta.target_qname].append(clazz)
 
-        self.sys_modules = len(sys.modules)
+        # Publish the complete index at once, other threads must
+        # never see it empty or half built.
+        self.xsi_cache = xsi_cache
+        self.sys_modules = sys_modules
 
     def is_binding_model(self, clazz: type[T]) -> bool:
         """Return whether the clazz is a binding model.
